@@ -18,6 +18,8 @@ def replay(path):
         ctx.workdir = os.path.join(driver.WORK, 'replay_%s' % prop)
         os.makedirs(ctx.workdir, exist_ok=True)
         ctx.only_cfg = key['cfg']
+        if prop == 'C19' and key.get('stage'):
+            ctx.only_stage, ctx.only_names = key['stage'], key.get('names')
         try:
             props.REGISTRY[prop](ctx)
         except Exception as e:  # noqa
